@@ -1,6 +1,7 @@
 import KeepVerif.Proofs.C04Sqrt
 import KeepVerif.Proofs.C04Field
 import KeepVerif.Proofs.C04D2
+import KeepVerif.Proofs.C04G2
 /-!
 # C04 — BN254 point encoding round-trips and decoding always terminates
 
@@ -16,10 +17,10 @@ Property theorems over `Model/C04.lean` (the functions the driver runs); constan
 * soundness of decoding for all inputs: `holdsD1_model` (G1), `holdsD2_model` (G2, in
   `Proofs/C04D2.lean`, proved for an abstract square-root routine and instantiated);
 * round trip: `g1_roundtrip` (all finite points, `P` prime as hypothesis), `identity_roundtrip`;
-  `g2_roundtrip_partial`: G2 round trip under the hypothesis that the search returns one of the
-  two roots `±y` of `x³ + twistB` (true in a field once the 16-step search is complete for squares —
-  that algebraic fact about F_p² is the named gap; parity, negation, range and subgroup checks are
-  all proved);
+  `g2_roundtrip`: every point of G2 with reduced coordinates and non-zero `y` components
+  round-trips (`P` prime as hypothesis; the field argument for F_p² — `Proofs/C04G2.lean`:
+  `sqrtGfP2_complete`, `root_pm` — closes the gap the older `g2_roundtrip_partial` names; the side
+  condition is shown necessary for the code as it is by `g2_roundtrip_fails_zero_component`);
 * hashing: `hash_on_curve`, `hashLoop_mono` (termination is fuel-relative).
 -/
 namespace KeepVerif.C04
@@ -247,15 +248,30 @@ theorem g2FromInts_ok (x y : Fp2) (hx : Reduced x) (hy : Reduced y) (hin : inG2 
   · rw [if_pos hz]
   · rw [if_neg hz, if_pos hin]
 
+/-- round trip for any square-root routine whose result, after the parity selection of
+    `DecompressToG2`, is `y`. -/
+theorem g2_roundtrip_sel (sqrt : Fp2 → Option Fp2) (x y r : Fp2) (hx : Reduced x) (hy : Reduced y)
+    (hin : inG2 x y = true) (hx0 : ¬ (x.x = 0 ∧ x.y = 0))
+    (hs : sqrt (Fp2.add (Fp2.pow x 3) twistB) = some r)
+    (hy' : (if y.y % 2 ≠ r.y % 2 then (⟨P - r.x, P - r.y⟩ : Fp2) else r) = y) :
+    decompressG2With sqrt (compressG2 x y).1 (compressG2 x y).2 = .ok (x, y) := by
+  obtain ⟨hm1, hm2, hm3⟩ := orTop_split x.y (y.y % 2) (lt_trans hx.2 p_lt_two255)
+    (Nat.mod_lt _ (by omega))
+  have heta : (⟨x.x, x.y⟩ : Fp2) = x := by cases x; rfl
+  unfold decompressG2With compressG2 yParity
+  simp only
+  rw [if_neg (fun h => hx0 ⟨h.2, hm3 h.1⟩)]
+  rw [hm1, hm2, heta, hs]
+  simp only
+  rw [hy']
+  exact g2FromInts_ok x y hx hy hin
+
 /-- round trip for any square-root routine that returns one of `±y`. -/
 theorem g2_roundtrip_with (sqrt : Fp2 → Option Fp2) (x y r : Fp2) (hx : Reduced x) (hy : Reduced y)
     (hin : inG2 x y = true) (hx0 : ¬ (x.x = 0 ∧ x.y = 0))
     (hs : sqrt (Fp2.add (Fp2.pow x 3) twistB) = some r)
     (hr : r = y ∨ r = ⟨P - y.x, P - y.y⟩) :
     decompressG2With sqrt (compressG2 x y).1 (compressG2 x y).2 = .ok (x, y) := by
-  obtain ⟨hm1, hm2, hm3⟩ := orTop_split x.y (y.y % 2) (lt_trans hx.2 p_lt_two255)
-    (Nat.mod_lt _ (by omega))
-  have heta : (⟨x.x, x.y⟩ : Fp2) = x := by cases x; rfl
   have hy' : (if y.y % 2 ≠ r.y % 2 then (⟨P - r.x, P - r.y⟩ : Fp2) else r) = y := by
     have hp := p_odd
     have h1 := hy.1
@@ -269,13 +285,7 @@ theorem g2_roundtrip_with (sqrt : Fp2 → Option Fp2) (x y r : Fp2) (hx : Reduce
         simp only [Fp2.mk.injEq]
         simp only at h1 h2
         constructor <;> omega
-  unfold decompressG2With compressG2 yParity
-  simp only
-  rw [if_neg (fun h => hx0 ⟨h.2, hm3 h.1⟩)]
-  rw [hm1, hm2, heta, hs]
-  simp only
-  rw [hy']
-  exact g2FromInts_ok x y hx hy hin
+  exact g2_roundtrip_sel sqrt x y r hx hy hin hx0 hs hy'
 
 /-- **G2 round trip (partial)**: for every point of G2 with reduced coordinates,
     decompressing the compressed point gives back the point, *provided* the square-root search
@@ -293,6 +303,84 @@ theorem g2_roundtrip_partial (x y r : Fp2) (hx : Reduced x) (hy : Reduced y)
     cases hs
   unfold decompressG2
   exact g2_roundtrip_with sqrtGfP2 x y r hx hy hin hx0 hs hr
+
+/-- `x³ + twistB` as the model computes it equals `y·y` for a point on the twist. -/
+theorem twist_rhs_eq (x y : Fp2) (hon : onTwist x y = true) :
+    Fp2.add (Fp2.pow x 3) twistB = Fp2.mul y y := by
+  have h : Fp2.mul y y = Fp2.add (Fp2.mul (Fp2.mul x x) x) twistB := by simpa [onTwist] using hon
+  rw [h]
+  apply φ_inj ⟨Nat.mod_lt _ (by decide), Nat.mod_lt _ (by decide)⟩
+    ⟨Nat.mod_lt _ (by decide), Nat.mod_lt _ (by decide)⟩
+  rw [φ_add, φ_add, φ_pow, φ_mul, φ_mul]
+  ring
+
+/-- the parity selection of `DecompressToG2` recovers `y` from either root, when neither
+    component of `y` is zero. -/
+theorem parity_select2 (y r : Fp2) (hy : Reduced y) (hr : Reduced r)
+    (hyx : y.x ≠ 0) (hyy : y.y ≠ 0) (h : φ r = φ y ∨ φ r = -φ y) :
+    (if y.y % 2 ≠ r.y % 2 then (⟨P - r.x, P - r.y⟩ : Fp2) else r) = y := by
+  have hp := p_odd
+  have h1 := hy.1
+  have h2 := hy.2
+  rcases h with h | h
+  · have : r = y := φ_inj hr hy h
+    subst this; simp
+  · have hrx : r.x = P - y.x := by
+      apply nat_eq_of_cast hr.1 (by omega)
+      have := congrArg QuadraticAlgebra.re h
+      simp only [φ, QuadraticAlgebra.re_neg] at this
+      rw [this, Nat.cast_sub (Nat.le_of_lt h1), ZMod.natCast_self]; ring
+    have hry : r.y = P - y.y := by
+      apply nat_eq_of_cast hr.2 (by omega)
+      have := congrArg QuadraticAlgebra.im h
+      simp only [φ, QuadraticAlgebra.im_neg] at this
+      rw [this, Nat.cast_sub (Nat.le_of_lt h2), ZMod.natCast_self]; ring
+    have hpar : y.y % 2 ≠ r.y % 2 := by omega
+    rw [if_pos hpar]
+    cases y with
+    | mk yx yy =>
+      simp only [Fp2.mk.injEq]
+      simp only at h1 h2 hrx hry hyx hyy
+      constructor <;> omega
+
+/-- **G2 round trip**: for every point of G2 with reduced coordinates neither of whose
+    `y`-components is zero, decompressing the compressed point gives back the point.  `P` prime
+    is the hypothesis A-field (as for G1); everything else — F_p² = F_p[i] is a field because
+    `P % 4 = 3`, the 16-step search is complete for squares, a returned root is `±y`, parity
+    selection, range and subgroup checks — is proved.  The side condition is real: the compressed
+    form stores the parity of `y.y` only, so for `y.y = 0` the two roots are indistinguishable, and
+    for `y.x = 0` the negation `P − 0 = P` of the code is rejected as out of range by `G2FromInts`
+    (`g2_roundtrip_fails_zero_component`); such points have density 2⁻²⁵³ and none is known. -/
+theorem g2_roundtrip [hp : Fact (Nat.Prime P)] (x y : Fp2) (hx : Reduced x) (hy : Reduced y)
+    (hin : inG2 x y = true) (hyx : y.x ≠ 0) (hyy : y.y ≠ 0) :
+    decompressG2 (compressG2 x y).1 (compressG2 x y).2 = .ok (x, y) := by
+  have hon : onTwist x y = true := by
+    unfold inG2 at hin
+    exact (Bool.and_eq_true _ _ ▸ hin).1
+  have hrhs := twist_rhs_eq x y hon
+  have hne : ¬ (y.x = 0 ∧ y.y = 0) := fun h => hyx h.1
+  obtain ⟨r, hs⟩ := sqrtGfP2_complete _ y hy hne hrhs.symm
+  have hrr : Reduced r := sqrtGfP2_reduced _ r hs
+  have hpm := root_pm y r (by rw [sqrtGfP2_sound _ r hs, hrhs])
+  have hx0 : ¬ (x.x = 0 ∧ x.y = 0) := by
+    rintro ⟨h1, h2⟩
+    have : x = ⟨0, 0⟩ := by cases x; simp only at h1 h2; subst h1; subst h2; rfl
+    rw [this, sqrt_twistB_none] at hs
+    cases hs
+  unfold decompressG2
+  exact g2_roundtrip_sel sqrtGfP2 x y r hx hy hin hx0 hs (parity_select2 y r hy hrr hyx hyy hpm)
+
+/-- the side condition of `g2_roundtrip` is needed by the code as it is: when the search returns
+    the root with `r.x = 0` and the other parity, the code's negation yields `P`, which
+    `G2FromInts` rejects (`err:equals`) — stated on the selection step for any such root. -/
+theorem g2_roundtrip_fails_zero_component (x r : Fp2) (hrx : r.x = 0) :
+    ∃ e, g2FromInts x ⟨P - r.x, P - r.y⟩ = .error e := by
+  unfold g2FromInts
+  cases h : firstErr [x.y, x.x, P - r.y, P - r.x] with
+  | some e => exact ⟨e, rfl⟩
+  | none =>
+    have := firstErr_none _ h (P - r.x) (by simp)
+    omega
 
 /-- coordinates of the G2 generator (`twistGen`): x = g2x + g2xi·i, y = g2y + g2yi·i. -/
 def g2xi : Nat := 11559732032986387107991004021392285783925812861821192530917403151452391805634
